@@ -445,7 +445,7 @@ class Impl(object):
         r = self.reactor
         ob = r._outbox
         proto = getattr(r, 'protocol', None)
-        ubuf = len(proto.unpacker.buf) if proto is not None else 0
+        ubuf = compat.unconsumed(proto.unpacker) if proto is not None else 0
         subs = sorted(c.encode() for c in set.__iter__(self.session.subscriptions))
         # the frames put into the current outbox, in true queue order, and the bytes its socket accepted (the
         # model's ghosts `enq` and `wire`), as length + hash
